@@ -481,7 +481,9 @@ def r16_range_key(c, facts, rule='C02.R16'):
     SECOND = {'or', 'or_else', 'xor', 'unwrap_or', 'unwrap_or_else', 'unwrap_or_default', 'map_or', 'map_or_else', 'and_then', 'filter', 'get_or_insert', 'get_or_insert_with', 'insert'}
     n = 0
     for b, t in P.call_blocks(xr, 'Builder::http_status_code'):
-        a = t['args'][1] if len(t['args']) > 1 else None
+        # the status argument, with or without a receiver in front of it
+        cand = [x for x in t['args'] if 'HttpStatus' in (x.get('ty') or '')]
+        a = cand[0] if cand else (t['args'][-1] if t['args'] else None)
         if not a or 'l' not in a:
             continue
         n += 1
@@ -859,6 +861,24 @@ def match_fallbacks(facts, fn):
                             sp = spec_of(place)
                             if sp:
                                 reads.setdefault(sp, set()).add(b)
+        # ... and a field read inside a private helper of the crate counts at the block of the call (`None => schema_examples(content)`)
+        for b, t in f2.calls():
+            info = callee_of(t)
+            h = facts.fns.get((info or {}).get('resolved_id') or (info or {}).get('id')) if info else None
+            if h is None or not h.mir or h.crate != f2.crate or h.id == f2.id or h.d.get('vis') == 'Public' or h.id == fn.id:
+                continue
+            stack = [h]
+            seen_h = set()
+            while stack:
+                x = stack.pop()
+                if x.id in seen_h:
+                    continue
+                seen_h.add(x.id)
+                stack.extend(facts.closures_of(x))
+                for place, is_w in operand_places(x):
+                    sp = spec_of(place)
+                    if sp:
+                        reads.setdefault(sp, set()).add(b)
         for b, blk in f2.blocks():
             sw = blk['term']
             if sw['t'] != 'switch' or 'l' not in sw['discr']:
